@@ -54,6 +54,11 @@ type FakeAE struct {
 	Fail func(service, method string, kinds []string) bool
 	// OAuth maps a ticket to (email, admin); "" email = no valid OAuth credentials.
 	OAuth func(ticket string) (email string, admin bool)
+	// OnStore, if set, is called (with the store's lock held, i.e. at the linearisation point) for
+	// every state-changing or state-reading operation the relay model talks about:
+	// op = "put" | "query" | "mcset"; kind/name identify the entity (or memcache key); completed is the
+	// value of the Completed property for request entities; names are the results of a query.
+	OnStore func(op, kind, name string, completed bool, names []string)
 }
 
 // NewFakeAE starts the fake API server.
@@ -218,6 +223,10 @@ func (f *FakeAE) dispatch(service, method, ticket string, payload []byte) (out p
 		for i, e := range parsed {
 			f.entities[e.key] = e
 			kl.Append(protoreflect.ValueOfMessage(getMsg(ents.Get(i).Message(), "key")))
+			if f.OnStore != nil {
+				c, _ := e.props["Completed"].(bool)
+				f.OnStore("put", e.kind, e.name, c, nil)
+			}
 		}
 		f.mu.Unlock()
 		return res.Interface(), kinds, keys, ""
@@ -328,6 +337,13 @@ func (f *FakeAE) dispatch(service, method, ticket string, payload []byte) (out p
 			rl.Append(protoreflect.ValueOfMessage(ep.ProtoReflect()))
 			keys = append(keys, k)
 		}
+		if f.OnStore != nil {
+			var names []string
+			for _, k := range keys {
+				names = append(names, strings.SplitN(k, "|", 2)[1])
+			}
+			f.OnStore("query", kind, "", false, names)
+		}
 		f.mu.Unlock()
 		res.Set(fld(res, "more_results"), protoreflect.ValueOfBool(false))
 		res.Set(fld(res, "keys_only"), protoreflect.ValueOfBool(keysOnly))
@@ -388,6 +404,9 @@ func (f *FakeAE) dispatch(service, method, ticket string, payload []byte) (out p
 			k := string(it.Get(fld(it, "key")).Bytes())
 			f.memcache[k] = append([]byte(nil), it.Get(fld(it, "value")).Bytes()...)
 			keys = append(keys, "memcache|"+k)
+			if f.OnStore != nil {
+				f.OnStore("mcset", "memcache", k, false, nil)
+			}
 			sl.Append(protoreflect.ValueOfEnum(1)) // STORED
 		}
 		f.mu.Unlock()
